@@ -252,6 +252,24 @@ theorem F9.setNow (g : Gw) (t : Nat) : F9 0 g (g.setNow t) := F9.of_eq rfl rfl r
 theorem F9.clearBuffer (g : Gw) : F9 0 g g.clearBuffer := F9.of_eq rfl rfl rfl
 theorem F9.cancelSleepPinger (g : Gw) : F9 0 g g.cancelSleepPinger := F9.of_eq rfl rfl rfl
 theorem F9.startSleepPinger (g : Gw) (d : UInt16) : F9 0 g (g.startSleepPinger d) := F9.of_eq rfl rfl rfl
+theorem F9.armSleepPinger (g : Gw) (d : UInt16) : F9 0 g (g.armSleepPinger d) := by
+  unfold Gw.armSleepPinger
+  split
+  · exact F9.cancelSleepPinger g
+  · exact (F9.cancelSleepPinger g).trans (F9.startSleepPinger _ _)
+theorem F9.pingBroker (g : Gw) : F9 0 g g.pingBroker := by
+  unfold Gw.pingBroker
+  have h0 : F9 0 g ({ g with ownPings := g.ownPings + 1 } : Gw) := F9.of_eq rfl rfl rfl
+  exact h0.trans (F9.mqttSend _ _ rfl)
+theorem F9.keepBrokerAlive (g : Gw) : F9 0 g g.keepBrokerAlive := by
+  unfold Gw.keepBrokerAlive
+  split
+  · exact F9.refl g
+  · split
+    · split
+      · exact F9.refl g
+      · exact F9.pingBroker g
+    · exact F9.pingBroker g
 
 theorem F9.newTopicId (g : Gw) : F9 0 g g.newTopicId.2 := by
   refine F9.of_eq (newTopicId_outs g) ?_ ?_
@@ -547,16 +565,13 @@ theorem F9.handleConnect (g : Gw) (will clean : Bool) (dur : UInt16) (cid : Byte
 theorem F9.handlePingreq (g : Gw) : F9 0 g g.handlePingreq := by
   unfold Gw.handlePingreq
   split
-  · exact (((F9.setSt g _).trans (F9.flushBuffer _)).trans (F9.snSend _ _ _)).trans (F9.setSt _ _)
+  · exact ((((F9.setSt g _).trans (F9.flushBuffer _)).trans (F9.snSend _ _ _)).trans (F9.setSt _ _)).trans (F9.armSleepPinger _ _)
   · exact F9.mqttSend g _ rfl
 
 theorem F9.handleSleep (g : Gw) (d : UInt16) : F9 0 g (g.handleSleep d) := by
   unfold Gw.handleSleep
-  have h1 : F9 0 g (g.cancelSleepPinger.maybeSleepPinger d) := by
-    unfold Gw.maybeSleepPinger
-    split
-    · exact (F9.cancelSleepPinger g).trans (F9.startSleepPinger _ _)
-    · exact F9.cancelSleepPinger g
+  have h0 : F9 0 g ({ g with sleepDur := d } : Gw) := F9.of_eq rfl rfl rfl
+  have h1 : F9 0 g (({ g with sleepDur := d } : Gw).armSleepPinger d) := h0.trans (F9.armSleepPinger _ _)
   have h2 : ∀ x : Gw, F9 0 x x.clearBufferUnlessAsleep := by
     intro x; unfold Gw.clearBufferUnlessAsleep; split
     · exact F9.clearBuffer x
@@ -623,7 +638,7 @@ theorem F9.firePing (g : Gw) (i : Nat) : F9 0 g (g.firePing i) := by
   unfold Gw.firePing
   have h0 : F9 0 g ({ g with pingers := g.pingers.mapIdx (fun j (p : Pinger) =>
       if j = i then { p with next := p.next + p.period } else p) } : Gw) := F9.of_eq rfl rfl rfl
-  exact h0.trans (F9.mqttSend _ _ rfl)
+  exact h0.trans (F9.pingBroker _)
 
 theorem F9.fireDue (g : Gw) (d : Due) : F9 0 g (g.fireDue d) := by
   unfold Gw.fireDue
